@@ -171,6 +171,24 @@ def run(ctx):
     callers = sorted({q.top(f.name) for f in b.non_test_fns() for bi, t, p in f.calls() if p in ('std::io::stdout', 'std::fs::File::create') or (short(p).startswith('to_writer') and 'serde_json' in p)})
     ctx.verdict(callers == ['main'], rule, rule + ':only-main-writes', 'output functions are called from main only', '', 'callers: %s' % callers)
 
+    # ---------------- (3a) the constant-sum scan accumulates the outcome of every kind of node
+    rule = 'C17.constant-sum-scan'
+    gg = ctx.fn('bin', 'gambit::get_global_info', rule)
+    if gg is not None:
+        arms = {}
+        for bi, st, pl, rhs in q.stores(gg):
+            rr = strip_refs(rhs)
+            if rr[0] == 'bin' and rr[1] == 'Add' and norm(rr[2]) == norm(pl) and q.find_sub(rr[3], lambda x: q.is_call(x, 'get') and 'HashMap' in x[1]) is not None \
+                    and q.find_sub(rr[3], lambda x: q.is_call(x, 'outcome')) is not None:
+                vs = [c['variants'][0] for c in gg.conds(bi) if c['kind'] == 'variant' and len(c['variants']) == 1 and c['variants'][0] in ('Terminal', 'Chance', 'Player')]
+                arms.setdefault(vs[-1] if vs else 'every node', []).append(bi)
+        if not arms:
+            ctx.anchor_lost(rule, 'get_global_info: accumulation of outcome payoffs along a path')
+        else:
+            covered = set(arms)
+            ok_ = 'every node' in covered or covered == {'Terminal', 'Chance', 'Player'}
+            ctx.verdict(ok_, rule, rule + ':every-node-kind', 'along every path the payoffs of the outcome attached to a terminal, a chance node and a player node are all added before the sums are compared', gg.where(sorted(arms.values())[0][0]),
+                        'outcome payoffs accumulated at: %s' % sorted(covered), breaks='a file whose only non-constant-sum payoffs sit on a chance (or player) node is accepted and solved as if it were constant sum')
     # ---------------- (3) guards in the gambit reader
     rule = 'C17.gambit-guards'
     fs = ctx.fn('bin', 'gambit::from_str', rule)
